@@ -204,6 +204,13 @@ fn run_api(a: Api, input: &[u8], expected: &Rc<Vec<u8>>, f: &Faults) -> RunOut {
                         err = Some(format!("{:?}", e));
                         break;
                     }
+                    // every other input: the caller flushes the Stream after each piece (also right before finish)
+                    if input.len() % 2 == 1 {
+                        if let Err(e) = s.flush() {
+                            err = Some(format!("{:?}", e));
+                            break;
+                        }
+                    }
                 }
                 let fin = s.finish();
                 match (err, fin) {
